@@ -16,8 +16,11 @@ Definition strict_pair (pl cl : level) : Prop :=
   (forall c, In c (nodes cl) -> exists p, lists pl p c) /\
   (forall p c, lists pl p c -> In c (nodes cl)) /\
   (forall p p' c, lists pl p c -> lists pl p' c -> p = p').
-(* no child is repeated inside one list (NOT enforced by the validator: finding F3) *)
+(* no child is repeated inside one list *)
 Definition child_lists_nodup (lv : level) : Prop := forall p cs, In (p, cs) lv -> NoDup cs.
+(* the child lists of a level, laid end to end, repeat no name: no child in two entries and no
+   child twice in one list -- what the validator's child -> parent table enforces *)
+Definition flat_nodup (lv : level) : Prop := NoDup (concat (map snd lv)).
 (* every level but the last has repetition-free child lists *)
 Fixpoint inner_nodup (t : tree) : Prop :=
   match t with
@@ -85,97 +88,160 @@ Proof.
     exists cs. split; [|exact Hin]. apply in_map_iff. exists (p, cs). split; [reflexivity | exact Hp].
 Qed.
 
+(* NoDup of the concatenation = no name in two entries, no name twice in an entry *)
+Lemma concat_nodup_entries (lf : level) :
+  NoDup (concat (map snd lf)) ->
+  (forall l rs, In (l, rs) lf -> NoDup rs) /\
+  (forall l l' rs rs' r, In (l, rs) lf -> In (l', rs') lf -> In r rs -> In r rs' -> (l, rs) = (l', rs')).
+Proof.
+  induction lf as [|[l0 rs0] t IH]; cbn; intros H; [split; intros; contradiction|].
+  apply NoDup_app_inv in H. destruct H as (H1 & H2 & H3). destruct (IH H2) as (A1 & A2).
+  assert (G : forall l rs r, In (l, rs) t -> In r rs -> In r (concat (map snd t))).
+  { intros l rs r Hin Hr. apply in_concat. exists rs. split; [|exact Hr].
+    apply in_map_iff. exists (l, rs). split; [reflexivity | exact Hin]. }
+  split.
+  - intros l rs [E|Hin]; [inversion E; subst; exact H1 | apply (A1 l rs Hin)].
+  - intros l l' rs rs' r [E|Hin] [E'|Hin'] Hr Hr'.
+    + congruence.
+    + inversion E; subst. exfalso. apply (H3 r Hr). apply (G l' rs' r Hin' Hr').
+    + inversion E'; subst. exfalso. apply (H3 r Hr'). apply (G l rs r Hin Hr).
+    + apply (A2 l l' rs rs' r); assumption.
+Qed.
+
+Lemma flat_nodup_child_lists pl : flat_nodup pl -> child_lists_nodup pl.
+Proof. intros H p cs Hin. apply (proj1 (concat_nodup_entries pl H) p cs Hin). Qed.
+
+Lemma flat_nodup_one_parent pl p p' c : flat_nodup pl -> lists pl p c -> lists pl p' c -> p = p'.
+Proof.
+  intros H (cs & Hin & Hc) (cs' & Hin' & Hc').
+  pose proof (proj2 (concat_nodup_entries pl H) p p' cs cs' c Hin Hin' Hc Hc') as E. congruence.
+Qed.
+
+Lemma in_flat_lists pl c : In c (concat (map snd pl)) <-> exists p, lists pl p c.
+Proof.
+  rewrite in_concat. split.
+  - intros (cs & Hcs & Hc). apply in_map_iff in Hcs. destruct Hcs as ([p cs'] & E & Hp). cbn in E. subst.
+    exists p, cs. split; assumption.
+  - intros (p & cs & Hp & Hc). exists cs. split; [|exact Hc]. apply in_map_iff. exists (p, cs). split; [reflexivity | exact Hp].
+Qed.
+
+(* Python dict + repetition-free lists + one parent per child = flat_nodup *)
+Lemma all_children_nodup pl :
+  wf_level pl -> child_lists_nodup pl ->
+  (forall p p' c, lists pl p c -> lists pl p' c -> p = p') ->
+  flat_nodup pl.
+Proof.
+  unfold wf_level, flat_nodup. induction pl as [|[q cs] t IH]; intros Wp N U; cbn; [constructor|].
+  cbn in Wp. inversion Wp as [|? ? Wq Wt]; subst. apply NoDup_app.
+  - apply (N q cs). left. reflexivity.
+  - apply IH; [exact Wt | intros p cs' Hin; apply (N p cs'); right; exact Hin|].
+    intros p p' c Hl Hl'. apply (U p p' c); apply lists_cons; right; assumption.
+  - intros c Hc Hc'. apply in_concat in Hc'. destruct Hc' as (cs' & Hcs' & Hc').
+    apply in_map_iff in Hcs'. destruct Hcs' as ([p cs''] & E' & Hp). cbn in E'. subst cs''.
+    assert (q = p).
+    { apply (U q p c); [apply lists_cons; left; split; [reflexivity | exact Hc]|].
+      apply lists_cons. right. exists cs'. split; assumption. }
+    subst p. apply Wq. apply (in_map fst) in Hp. exact Hp.
+Qed.
+
+(* the table after one child list: the new children, all recorded under p, in front of the old table *)
+Definition recorded (p : Z) (cs : list Z) (c2p : list (Z * Z)) : list (Z * Z) :=
+  map (fun c => (c, p)) (rev cs) ++ c2p.
+
+Lemma recorded_keys p cs c2p c : In c (map fst (recorded p cs c2p)) <-> In c cs \/ In c (map fst c2p).
+Proof.
+  unfold recorded. rewrite map_app, map_map, in_app_iff. cbn [fst]. rewrite map_id, <- in_rev. reflexivity.
+Qed.
+
+(* one child list passes exactly when every name in it is a node of the child level, is not
+   recorded yet, and the list repeats no name *)
 Lemma scan_children_sound cl (p : Z) cs (c2p c2p' : list (Z * Z)) :
   scan_children cl p cs c2p = Some c2p' ->
-  (forall c, In c cs -> In c (nodes cl) /\ zassoc c c2p' = Some p) /\
-  (forall c q, zassoc c c2p = Some q -> zassoc c c2p' = Some q) /\
-  (forall c q, zassoc c c2p' = Some q -> zassoc c c2p = Some q \/ (In c cs /\ q = p)).
+  (forall c, In c cs -> In c (nodes cl)) /\ NoDup cs /\
+  (forall c, In c cs -> ~ In c (map fst c2p)) /\ c2p' = recorded p cs c2p.
 Proof.
   revert c2p. induction cs as [|c t IH]; intros c2p H; cbn in H.
-  - inversion H; subst. split; [intros c []|]. split; auto.
+  - inversion H; subst. split; [intros c []|]. split; [constructor|]. split; [intros c []|]. reflexivity.
   - destruct (zmem c (nodes cl)) eqn:Em; cbn in H; [|discriminate].
     apply zmem_in in Em.
-    destruct (zassoc c c2p) as [p'|] eqn:Ea.
-    + destruct (p' =? p) eqn:Ep; [|discriminate]. apply Z.eqb_eq in Ep. subst p'.
-      destruct (IH _ H) as (A1 & A2 & A3). split; [|split].
-      * intros d [<-|Hd]; [split; [exact Em | apply A2; exact Ea] | apply A1; exact Hd].
-      * exact A2.
-      * intros d q Hq. destruct (A3 d q Hq) as [Ho|[Hd ->]]; [left; exact Ho | right; split; [right; exact Hd | reflexivity]].
-    + destruct (IH _ H) as (A1 & A2 & A3). split; [|split].
-      * intros d [<-|Hd]; [split; [exact Em | apply A2; cbn; rewrite Z.eqb_refl; reflexivity] | apply A1; exact Hd].
-      * intros d q Hq. apply A2. cbn. destruct (d =? c) eqn:Edc; [|exact Hq].
-        apply Z.eqb_eq in Edc. subst. congruence.
-      * intros d q Hq. destruct (A3 d q Hq) as [Ho|[Hd ->]].
-        -- cbn in Ho. destruct (d =? c) eqn:Edc.
-           ++ apply Z.eqb_eq in Edc. subst. inversion Ho; subst. right. split; [left; reflexivity | reflexivity].
-           ++ left. exact Ho.
-        -- right. split; [right; exact Hd | reflexivity].
+    destruct (zassoc c c2p) as [p'|] eqn:Ea; [discriminate|]. apply zassoc_none in Ea.
+    destruct (IH _ H) as (A1 & A2 & A3 & A4). split; [|split; [|split]].
+    + intros d [<-|Hd]; [exact Em | apply A1; exact Hd].
+    + constructor; [|exact A2]. intros Hc. apply (A3 c Hc). left. reflexivity.
+    + intros d [<-|Hd]; [exact Ea|]. intros Hk. apply (A3 d Hd). right. exact Hk.
+    + rewrite A4. unfold recorded. cbn [rev]. rewrite map_app, <- app_assoc. reflexivity.
 Qed.
 
 Lemma scan_children_complete cl (p : Z) cs (c2p : list (Z * Z)) :
-  (forall c, In c cs -> In c (nodes cl)) ->
-  (forall c, In c cs -> zassoc c c2p = None \/ zassoc c c2p = Some p) ->
-  exists c2p', scan_children cl p cs c2p = Some c2p'.
+  (forall c, In c cs -> In c (nodes cl)) -> NoDup cs ->
+  (forall c, In c cs -> ~ In c (map fst c2p)) ->
+  scan_children cl p cs c2p = Some (recorded p cs c2p).
 Proof.
-  revert c2p. induction cs as [|c t IH]; intros c2p H1 H2; cbn; [eexists; reflexivity|].
+  revert c2p. induction cs as [|c t IH]; intros c2p H1 H2 H3; cbn; [reflexivity|].
   assert (Em : zmem c (nodes cl) = true) by (apply zmem_in, H1; left; reflexivity).
   rewrite Em. cbn.
-  destruct (H2 c (or_introl eq_refl)) as [E|E]; rewrite E.
-  - apply IH; [intros d Hd; apply H1; right; exact Hd|].
-    intros d Hd. cbn. destruct (d =? c) eqn:Edc; [right; reflexivity | apply H2; right; exact Hd].
-  - rewrite Z.eqb_refl. apply IH; [intros d Hd; apply H1; right; exact Hd | intros d Hd; apply H2; right; exact Hd].
+  assert (Ea : zassoc c c2p = None) by (apply zassoc_none, H3; left; reflexivity).
+  rewrite Ea. inversion H2 as [|? ? Hn Ht]; subst.
+  rewrite IH; [|intros d Hd; apply H1; right; exact Hd | exact Ht|].
+  - unfold recorded. cbn [rev]. rewrite map_app, <- app_assoc. reflexivity.
+  - intros d Hd [E|Hk]; [cbn in E; subst d; contradiction | apply (H3 d (or_intror Hd) Hk)].
 Qed.
 
+(* the whole level passes exactly when every listed name is a node of the child level, none is
+   recorded beforehand, and the child lists laid end to end repeat no name *)
 Lemma scan_parents_sound cl pl (c2p c2p' : list (Z * Z)) :
   scan_parents cl pl c2p = Some c2p' ->
-  (forall (p c : Z), lists pl p c -> In c (nodes cl) /\ zassoc c c2p' = Some p) /\
-  (forall (c q : Z), zassoc c c2p = Some q -> zassoc c c2p' = Some q).
+  (forall (p c : Z), lists pl p c -> In c (nodes cl)) /\ flat_nodup pl /\
+  (forall c, In c (concat (map snd pl)) -> ~ In c (map fst c2p)).
 Proof.
-  revert c2p. induction pl as [|[p0 cs0] t IH]; intros c2p H; cbn in H.
-  - inversion H; subst. split; [intros p c Hl; destruct (lists_nil _ _ Hl) | auto].
+  unfold flat_nodup. revert c2p. induction pl as [|[p0 cs0] t IH]; intros c2p H; cbn in H.
+  - split; [intros p c Hl; destruct (lists_nil _ _ Hl)|]. split; [constructor | intros c []].
   - destruct (scan_children cl p0 cs0 c2p) as [c2p1|] eqn:E1; [|discriminate].
-    destruct (scan_children_sound _ _ _ _ _ E1) as (A1 & A2 & _).
-    destruct (IH _ H) as (B1 & B2). split.
-    + intros p c Hl. apply lists_cons in Hl. destruct Hl as [[-> Hc]|Hl].
-      * destruct (A1 c Hc) as [Hn Ha]. split; [exact Hn | apply B2; exact Ha].
-      * apply B1; exact Hl.
-    + intros c q Hq. apply B2, A2, Hq.
+    destruct (scan_children_sound _ _ _ _ _ E1) as (A1 & A2 & A3 & ->).
+    destruct (IH _ H) as (B1 & B2 & B3). split; [|split].
+    + intros p c Hl. apply lists_cons in Hl. destruct Hl as [[-> Hc]|Hl]; [apply A1; exact Hc | apply (B1 p c Hl)].
+    + cbn [map snd concat]. apply NoDup_app; [exact A2 | exact B2|].
+      intros c Hc Hc'. apply (B3 c Hc'). apply recorded_keys. left. exact Hc.
+    + cbn [map snd concat]. intros c Hc. apply in_app_iff in Hc. destruct Hc as [Hc|Hc]; [apply A3; exact Hc|].
+      intros Hk. apply (B3 c Hc). apply recorded_keys. right. exact Hk.
 Qed.
 
 Lemma scan_parents_complete cl pl (c2p : list (Z * Z)) :
-  (forall p c, lists pl p c -> In c (nodes cl)) ->
-  (forall (p c : Z), lists pl p c -> zassoc c c2p = None \/ zassoc c c2p = Some p) ->
-  (forall p p' c, lists pl p c -> lists pl p' c -> p = p') ->
+  (forall p c, lists pl p c -> In c (nodes cl)) -> flat_nodup pl ->
+  (forall c, In c (concat (map snd pl)) -> ~ In c (map fst c2p)) ->
   exists c2p', scan_parents cl pl c2p = Some c2p'.
 Proof.
-  revert c2p. induction pl as [|[p0 cs0] t IH]; intros c2p H1 H2 H3; cbn; [eexists; reflexivity|].
-  destruct (scan_children_complete cl p0 cs0 c2p) as [c2p1 E1].
+  unfold flat_nodup. revert c2p. induction pl as [|[p0 cs0] t IH]; intros c2p H1 H2 H3; cbn; [eexists; reflexivity|].
+  cbn [map snd concat] in H2, H3. apply NoDup_app_inv in H2. destruct H2 as (N1 & N2 & N3).
+  rewrite (scan_children_complete cl p0 cs0 c2p).
+  - apply IH; [intros p c Hl; apply (H1 p); apply lists_cons; right; exact Hl | exact N2|].
+    intros c Hc Hk. apply recorded_keys in Hk. destruct Hk as [Hk|Hk]; [apply (N3 c Hk Hc)|].
+    apply (H3 c); [apply in_or_app; right; exact Hc | exact Hk].
   - intros c Hc. apply (H1 p0). apply lists_cons. left. split; [reflexivity | exact Hc].
-  - intros c Hc. apply (H2 p0). apply lists_cons. left. split; [reflexivity | exact Hc].
-  - rewrite E1. destruct (scan_children_sound _ _ _ _ _ E1) as (_ & _ & A3).
-    apply IH.
-    + intros p c Hl. apply (H1 p). apply lists_cons. right. exact Hl.
-    + intros p c Hl.
-      assert (Hl' : lists ((p0, cs0) :: t) p c) by (apply lists_cons; right; exact Hl).
-      destruct (zassoc c c2p1) as [q|] eqn:Eq; [|left; reflexivity].
-      right. destruct (A3 c q Eq) as [Ho|[Hc ->]].
-      * destruct (H2 p c Hl') as [E|E]; congruence.
-      * f_equal. apply (H3 p0 p c); [apply lists_cons; left; split; [reflexivity | exact Hc] | exact Hl'].
-    + intros p p' c Hl Hl'. apply (H3 p p' c); apply lists_cons; right; assumption.
+  - exact N1.
+  - intros c Hc. apply H3. apply in_or_app. left. exact Hc.
 Qed.
 
-Theorem validate_pair_iff pl cl : validate_pair pl cl = true <-> strict_pair pl cl.
+(* the verdict on two consecutive levels: a strict pair whose child lists repeat no name.
+   (flat_nodup implies the one-parent clause of strict_pair; both are kept because the other
+   lemmas are phrased with strict_pair.) *)
+Theorem validate_pair_iff pl cl : validate_pair pl cl = true <-> strict_pair pl cl /\ flat_nodup pl.
 Proof.
   unfold validate_pair, strict_pair. rewrite andb_true_iff, all_have_parent_iff. split.
-  - intros [H1 H2]. split; [exact H1|].
+  - intros [H1 H2].
     destruct (scan_parents cl pl []) as [c2p|] eqn:E; [|discriminate].
-    destruct (scan_parents_sound _ _ _ _ E) as (A1 & _). split.
-    + intros p c Hl. apply (A1 p c Hl).
-    + intros p p' c Hl Hl'. destruct (A1 p c Hl) as [_ E1]. destruct (A1 p' c Hl') as [_ E2]. congruence.
-  - intros (H1 & H2 & H3). split; [exact H1|].
-    destruct (scan_parents_complete cl pl [] H2) as [c2p E]; [intros; left; reflexivity | exact H3|].
-    rewrite E. reflexivity.
+    destruct (scan_parents_sound _ _ _ _ E) as (A1 & A2 & _).
+    split; [|exact A2]. split; [exact H1|]. split; [exact A1|].
+    intros p p' c. apply flat_nodup_one_parent. exact A2.
+  - intros ((H1 & H2 & _) & H4). split; [exact H1|].
+    destruct (scan_parents_complete cl pl [] H2 H4) as [c2p E]; [intros c _ [] | rewrite E; reflexivity].
 Qed.
+
+Lemma validate_pair_strict pl cl : validate_pair pl cl = true -> strict_pair pl cl.
+Proof. intros H. apply validate_pair_iff in H. tauto. Qed.
+
+Lemma validate_pair_flat pl cl : validate_pair pl cl = true -> flat_nodup pl.
+Proof. intros H. apply validate_pair_iff in H. tauto. Qed.
 
 (* the validator looks at the child level only through its key list *)
 Lemma validate_pair_nodes pl cl cl' : nodes cl = nodes cl' -> validate_pair pl cl = validate_pair pl cl'.
@@ -186,7 +252,7 @@ Proof.
     assert (G2 : forall c2p, scan_children cl p cs c2p = scan_children cl' p cs c2p).
     { clear IH. induction cs as [|c u IHc]; intros m; cbn; [reflexivity|]. rewrite E.
       destruct (negb (zmem c (nodes cl'))); [reflexivity|].
-      destruct (zassoc c m) as [q|]; [destruct (q =? p); [apply IHc | reflexivity] | apply IHc]. }
+      destruct (zassoc c m) as [q|]; [reflexivity | apply IHc]. }
     rewrite G2. destruct (scan_children cl' p cs c2p); [apply IH | reflexivity]. }
   rewrite G. reflexivity.
 Qed.
@@ -198,7 +264,7 @@ Proof. reflexivity. Qed.
 
 Theorem validate_pairs_iff t :
   validate_pairs t = true <->
-  (forall k, (S k < length t)%nat -> strict_pair (nth k t []) (nth (S k) t [])).
+  (forall k, (S k < length t)%nat -> strict_pair (nth k t []) (nth (S k) t []) /\ flat_nodup (nth k t [])).
 Proof.
   induction t as [|pl rest IH]; [cbn; split; [intros _ k Hk; lia | reflexivity]|].
   destruct rest as [|cl rest].
@@ -238,17 +304,33 @@ Qed.
 Lemma validate_pairs_head pl cl rest : validate_pairs (pl :: cl :: rest) = true -> strict_pair pl cl.
 Proof. rewrite validate_pairs_cons, andb_true_iff, validate_pair_iff. tauto. Qed.
 
+Lemma validate_pairs_head_flat pl cl rest : validate_pairs (pl :: cl :: rest) = true -> flat_nodup pl.
+Proof. rewrite validate_pairs_cons, andb_true_iff, validate_pair_iff. tauto. Qed.
+
+(* accepted => no child list above the leaf level repeats a name *)
+Lemma validate_pairs_inner_nodup t : validate_pairs t = true -> inner_nodup t.
+Proof.
+  induction t as [|lv rest IH]; [intros _; exact Logic.I|].
+  destruct rest as [|lv2 rest]; [intros _; exact Logic.I|].
+  intros H. cbn [inner_nodup]. split.
+  - apply flat_nodup_child_lists. apply (validate_pairs_head_flat _ _ _ H).
+  - apply IH. apply (validate_pairs_tail lv). exact H.
+Qed.
+
 (* the whole validator *)
 Theorem validate_iff t :
   validate t = true <->
   t <> [] /\
   (forall k, (S k < length t)%nat -> strict_pair (nth k t []) (nth (S k) t [])) /\
-  NoDup (leaf_rows t).
+  NoDup (leaf_rows t) /\
+  (forall k, (S k < length t)%nat -> flat_nodup (nth k t [])).
 Proof.
   unfold validate. rewrite !andb_true_iff, validate_pairs_iff, znodup_b_spec, negb_true_iff.
   split.
-  - intros [[H1 H2] H3]. split; [|split; assumption]. destruct t; [discriminate | congruence].
-  - intros (H1 & H2 & H3). split; [split|]; try assumption. destruct t; [congruence | reflexivity].
+  - intros [[H1 H2] H3]. split; [destruct t; [discriminate | congruence]|].
+    split; [intros k Hk; apply (H2 k Hk)|]. split; [exact H3 | intros k Hk; apply (H2 k Hk)].
+  - intros (H1 & H2 & H3 & H4). split; [split|]; try assumption; [destruct t; [congruence | reflexivity]|].
+    intros k Hk. split; [apply H2 | apply H4]; exact Hk.
 Qed.
 
 Lemma validate_pairs_of t : validate t = true -> validate_pairs t = true.
@@ -258,30 +340,21 @@ Lemma validate_strict t k : validate t = true -> (S k < length t)%nat ->
   strict_pair (nth k t []) (nth (S k) t []).
 Proof. intros H. apply validate_iff in H. destruct H as (_ & H & _). apply H. Qed.
 
-(* rows: NoDup of the concatenation = no row in two leaves, no row twice in a leaf *)
-Lemma concat_nodup_entries (lf : level) :
-  NoDup (concat (map snd lf)) ->
-  (forall l rs, In (l, rs) lf -> NoDup rs) /\
-  (forall l l' rs rs' r, In (l, rs) lf -> In (l', rs') lf -> In r rs -> In r rs' -> (l, rs) = (l', rs')).
-Proof.
-  induction lf as [|[l0 rs0] t IH]; cbn; intros H; [split; intros; contradiction|].
-  apply NoDup_app_inv in H. destruct H as (H1 & H2 & H3). destruct (IH H2) as (A1 & A2).
-  assert (G : forall l rs r, In (l, rs) t -> In r rs -> In r (concat (map snd t))).
-  { intros l rs r Hin Hr. apply in_concat. exists rs. split; [|exact Hr].
-    apply in_map_iff. exists (l, rs). split; [reflexivity | exact Hin]. }
-  split.
-  - intros l rs [E|Hin]; [inversion E; subst; exact H1 | apply (A1 l rs Hin)].
-  - intros l l' rs rs' r [E|Hin] [E'|Hin'] Hr Hr'.
-    + congruence.
-    + inversion E; subst. exfalso. apply (H3 r Hr). apply (G l' rs' r Hin' Hr').
-    + inversion E'; subst. exfalso. apply (H3 r Hr'). apply (G l rs r Hin Hr).
-    + apply (A2 l l' rs rs' r); assumption.
-Qed.
+Lemma validate_flat t k : validate t = true -> (S k < length t)%nat -> flat_nodup (nth k t []).
+Proof. intros H. apply validate_iff in H. destruct H as (_ & _ & _ & H). apply H. Qed.
 
+(* exported: what the validator did not enforce before the repair of F3 *)
+Theorem validate_inner_nodup t : validate t = true -> inner_nodup t.
+Proof. intros H. apply validate_pairs_inner_nodup, validate_pairs_of, H. Qed.
+
+Lemma validate_child_lists t k : validate t = true -> (S k < length t)%nat -> child_lists_nodup (nth k t []).
+Proof. intros V Hk. apply flat_nodup_child_lists, validate_flat; assumption. Qed.
+
+(* rows: no row in two leaves *)
 Lemma rows_one_leaf t l l' r :
   validate t = true -> lists (leaf_level t) l r -> lists (leaf_level t) l' r -> l = l'.
 Proof.
-  intros H (rs & Hin & Hr) (rs' & Hin' & Hr'). apply validate_iff in H. destruct H as (_ & _ & H).
+  intros H (rs & Hin & Hr) (rs' & Hin' & Hr'). apply validate_iff in H. destruct H as (_ & _ & H & _).
   unfold leaf_rows in H. destruct (concat_nodup_entries _ H) as (_ & A).
   specialize (A l l' rs rs' r Hin Hin' Hr Hr'). congruence.
 Qed.
